@@ -105,6 +105,27 @@ Example c15_finish_nan_iff_empty_ex :
   = [NaN; NaN].
 Proof. reflexivity. Qed.
 
+(* lists of quantiles are answered position by position, in the order of the request (any
+   arithmetic instance): result i is the estimate for the i-th requested q *)
+Theorem c15_quantiles_pointwise :
+  forall (T : Type) (A : arith T) (d : digest T) (qs : list T),
+    td_quantiles A d qs = map (td_quantile A d) qs /\
+    length (td_quantiles A d qs) = length qs /\
+    length (aq_finish A qs d) = length qs /\
+    forall i, nth_error (aq_finish A qs d) i
+              = option_map (fun q => if td_is_empty A d then a_nan A
+                                     else td_quantile A (td_compress A d) q)
+                           (nth_error qs i).
+Proof. exact quantiles_pointwise. Qed.
+
+Example c15_quantiles_pointwise_ex :
+  match aq_finish xarith [Fin 1; Fin (1 # 2); Fin 0; NaN; Fin 1] (run xarith ex_prog) with
+  | [a; b; c; d; e] => xeqb a (Fin 5) && xeqb b (Fin 1) && xeqb c (Fin (-3)) && xeqb d (Fin 5)
+                       && xeqb e (Fin 5)
+  | _ => false
+  end = true.
+Proof. vm_compute. reflexivity. Qed.
+
 (* non-finite inputs leave the digest unchanged -- in EVERY arithmetic instance (also the float one) *)
 Theorem c15_nonfinite_ignored :
   forall (T : Type) (A : arith T) (d : digest T) (v w : T),
